@@ -28,28 +28,6 @@ Require Import PV.NOF.Gauss PV.NOF.Coeff PV.NOF.Fock PV.NOF.FockLemmas PV.NOF.Li
 Import ListNotations.
 Local Open Scope Z_scope.
 
-(** concrete objects used for the non-vacuity examples *)
-Definition ex_ks : sig := [Boson; Ladder; Spin; Fermion; Fermion].
-Definition ex_x : nof := [([-1; 0; 0; 1; 0], CAdd (CNum 0) (CConst (gz 2))); ([0; 1; -1; 0; -1], CNum 3)].
-Definition ex_y : nof := [([2; 0; 1; 0; 1], CMul (CNum 0) (CNum 1)); ([0; 0; 0; -1; 1], CConst gi)].
-Definition ex_n : list Z := [3; -2; 1; 0; 1].
-
-Lemma ex_sig : sig_ok ex_ks = true. Proof. reflexivity. Qed.
-Lemma ex_bok : bok ex_ks ex_n. Proof. cbn; repeat split; intros; auto. Qed.
-Lemma ex_phys : phys ex_ks ex_n. Proof. cbn; repeat split; intros; auto; try discriminate; lia. Qed.
-Lemma ex_wf_x : wf_nof ex_ks ex_x.
-Proof.
-  split.
-  - repeat constructor; cbn; intuition discriminate.
-  - repeat constructor; cbn; intros; lia.
-Qed.
-Lemma ex_wf_y : wf_nof ex_ks ex_y.
-Proof.
-  split.
-  - repeat constructor; cbn; intuition discriminate.
-  - repeat constructor; cbn; intros; lia.
-Qed.
-
 (** the action of a stored term, closed form: weight * coefficient(N at the middle) and
     target state n - p (used by all proofs; shows what a term means) *)
 Theorem C08_term_closed_form : forall ks t n,
@@ -68,7 +46,7 @@ Proof. exact c08_mulop. Qed.
 Print Assumptions C08_mulop.
 
 Example C08_mulop_nonvacuous :
-  exists x', multiply_op ex_ks ex_x 4 (-1) = Ok x' /\ ~ lc_eq (den ex_ks x' ex_n) [].
+  exists x', multiply_op ex_ks ex_x 0 1 = Ok x' /\ ~ lc_eq (den ex_ks x' [3; -2; 1; 1; 1]) [].
 Proof. exact c08_ex_mulop_nonvacuous. Qed.
 
 (** _multiply_expr : multiplication by a function of the number operators *)
@@ -117,8 +95,8 @@ Proof. exact c08_adjoint. Qed.
 Print Assumptions C08_adjoint.
 
 Example C08_adjoint_nonvacuous :
-  phys ex_ks ex_n /\ phys ex_ks [4; -2; 1; 0; 1] /\
-  ~ geq (melt ex_ks ex_x [4; -2; 1; 1; 1] ex_n) g0 .
+  phys ex_ks [4; -2; 1; 1; 1] /\ phys ex_ks [5; -2; 1; 0; 1] /\
+  ~ geq (melt ex_ks ex_x [4; -2; 1; 1; 1] [5; -2; 1; 0; 1]) g0 .
 Proof. exact c08_ex_adjoint_nonvacuous. Qed.
 
 (** __pow__ with a non-negative integer exponent: x**0 = 1 and x**(e+1) = x**e * x *)
